@@ -19,8 +19,8 @@ def JsonRoundTrips : Prop := ∀ t v, WF t → HasType t v → roundTrip t v = s
 
 /-- **What holds**: the round trip is the identity for every type and every well-typed value — missing values at every level
 (dict keys and values included, since /repo commit 1824f18d5), `nan`/`±inf`, calls, loci, intervals, sets, dicts, tuples, nested
-structs, numeric n-d arrays in either memory order — provided (`JsonOK`) every n-d array has a numeric element type and no
-struct has a field named `self`.  Missing for the full statement: exactly those two classes. -/
+structs (a field may be named `self`, since /repo commit c88553592), numeric n-d arrays in either memory order — provided
+(`JsonOK`) every n-d array has a numeric element type.  Missing for the full statement: exactly that class. -/
 theorem fromJson_toJson_partial (t : HType) (v : Value) (hwf : WF t) (ht : HasType t v) (hok : JsonOK t v) :
     roundTrip t v = some (cOrder v) := by
   obtain ⟨j, h1, h2⟩ := na_of_conv t (conv t hwf) v ht hok
@@ -67,11 +67,14 @@ theorem ndarray_non_numeric_raises :
       some (.obj [(cp% "shape", .arr []), (cp% "data", .arr [.str []])]) ∧
     roundTrip (.ndarray .str 0) (.nd [] [.str []] false) = none := ⟨rfl, rfl⟩
 
-/-- a struct with a field named `self`: the value (a Mapping `{'self': 1}`) is written as `{"self": 1}`, and reading it back
-raises — `Struct(**{'self': 1})` collides with the `self` parameter of `Struct.__init__` -/
-theorem struct_field_self_raises :
+/-- a struct with a field named `self` round-trips (repaired by /repo commit c88553592: `Struct.__init__(self, /, **kwargs)`) … -/
+theorem struct_field_self_roundtrips :
     toJsonNa (.struct [(cp% "self", .int32)]) (.struct [.int 1]) = some (.obj [(cp% "self", .num 1)]) ∧
-    roundTrip (.struct [(cp% "self", .int32)]) (.struct [.int 1]) = none := ⟨rfl, rfl⟩
+    roundTrip (.struct [(cp% "self", .int32)]) (.struct [.int 1]) = some (.struct [.int 1]) := ⟨rfl, rfl⟩
+
+/-- … where the OLD struct clause raised: `Struct(**{'self': 1})` collided with the `self` parameter of `Struct.__init__` -/
+theorem old_struct_field_self_raised :
+    fromJsonStructOld [(cp% "self", .int32)] [(cp% "self", .num 1)] = none := rfl
 
 theorem json_round_trips_refuted : ¬ JsonRoundTrips := by
   intro h
@@ -101,7 +104,7 @@ example : WF sampleType := by simp [sampleType, WF, WFFields, WFTypes, ValidStr]
 example : HasType sampleType sampleValue := by
   simp [sampleType, sampleValue, HasType, HasTypeFields, HasTypeTuple, Flt.Valid64, Flt.Valid32, ScalarStr]
 example : JsonOK sampleType sampleValue := by
-  simp [sampleType, sampleValue, JsonOK, JsonOKFields, JsonOKTuple, isNumeric, hasSelfField]
+  simp [sampleType, sampleValue, JsonOK, JsonOKFields, JsonOKTuple, isNumeric]
 -- what the theorem says about it, computed: equal up to the memory order of the matrix
 example : roundTrip sampleType sampleValue = some (cOrder sampleValue) := by rfl
 -- the wire form of a float, a missing value and a phased call
